@@ -129,6 +129,14 @@ class FnTr(ExprMixin, MethodMixin, StmtMixin):
         if name == 'BddNode': return NODE
         if name == 'BigInt': return BIG
         if name == 'Ordering': return ('ordering',)
+        if name == 'char': return ('char',)
+        if name == 'Chars': return ('chars',)
+        if name == 'Peekable' and args and args[0].kind == 'TPath' and args[0].segs[-1][0] == 'Chars': return ('chars',)
+        if name == 'Formatter': return ('fmtr',)
+        if name == 'Error' and (any(sg[0] == 'fmt' for sg in ty.segs[:-1]) or (len(ty.segs) == 1 and self.item.trait == 'Display')):
+            return ('fmterr',)
+        if name == 'Error' and any(sg[0] == 'io' for sg in ty.segs[:-1]): return ('ioerr',)
+        if name in self.tr.crate.enums: return ('enum', self.tr.register_enum(self.tr.crate.enums[name], self))
         if name == 'Error' and len(ty.segs) == 2 and ty.segs[0][0] == 'io': return ('ioerr',)
         if name == 'ErrorKind': return ('errkind',)
         if name == 'Self':
@@ -149,7 +157,36 @@ class FnTr(ExprMixin, MethodMixin, StmtMixin):
     def owner_type(self, owner, line):
         if owner in NEWTYPES: return NEWTYPES[owner]
         if owner == 'BddNode': return NODE
+        if owner in self.tr.crate.enums: return ('enum', self.tr.register_enum(self.tr.crate.enums[owner], self))
         return ('struct', self.struct_key(owner, line))
+
+    def resolve_variant(self, names):
+        """(enum key, variant, kind, fields) for a path that names an enum variant, else None"""
+        crate = self.tr.crate
+        if len(names) >= 2:
+            en = names[-2]
+            if en == 'Self': en = self.owner
+            if en in crate.enums and any(v[0] == names[-1] for v in crate.enums[en].variants):
+                key = self.tr.register_enum(crate.enums[en], self)
+                kind, fields = self.tr.enum_variants[key][names[-1]]
+                return key, names[-1], kind, fields
+            return None
+        cands = [e for e in crate.enums.values() if any(v[0] == names[0] for v in e.variants)]
+        globbed = [e for e in cands if e.name in getattr(self.item, 'glob_uses', []) or
+                   (self.item.outer is not None and e.name in getattr(self.item.outer, 'glob_uses', []))]
+        uses = list(getattr(self.item, 'glob_uses', [])) + (list(getattr(self.item.outer, 'glob_uses', [])) if self.item.outer is not None else [])
+        single = [e for e in cands if (e.name + '::' + names[0]) in uses]
+        if globbed:
+            cands = globbed
+        elif single:
+            cands = single
+        else:
+            cands = []
+        if len(cands) == 1:
+            key = self.tr.register_enum(cands[0], self)
+            kind, fields = self.tr.enum_variants[key][names[0]]
+            return key, names[0], kind, fields
+        return None
 
     # -- name resolution
     def resolve_free(self, name, line, must=True):
@@ -200,6 +237,9 @@ class FnTr(ExprMixin, MethodMixin, StmtMixin):
                 # an unconstrained type parameter becomes an implicit Lean type argument
                 self.generics[g] = ('tparam', g)
                 self.tparams.append(g)
+            elif len(bounds) == 1 and bounds[0].kind == 'TPath' and bounds[0].segs[-1][0] == 'ToString':
+                self.generics[g] = ('tparam', g)
+                self.tparams.append(g + '] [ToString ' + g)
         params = []
         if a.self_kind is not None:
             if self.owner is None: self.fail('self parameter outside an impl')
@@ -248,6 +288,12 @@ class Translator:
         self.struct_fields_by_name = {}   # global struct name -> key
         self.struct_owner = {}            # key -> rust name (for method lookup)
         self.stats = []
+        self.stack = []         # FnItems being translated (outermost first)
+        self.group_of = {}      # FnItem -> group id (mutual recursion)
+        self.group_root = {}
+        self.pending = {}       # group id -> finished members waiting for the root
+        self.enum_variants = {}  # enum key -> {variant: (kind, [(field name or None, type)])}
+        self.consts_done = {}
 
     # -- structs
     def register_struct(self, st, local_to=None, ctx=None):
@@ -266,6 +312,55 @@ class Translator:
         self.struct_fields[key] = [(f, conv_ctx.conv(t)) for f, t in st.fields]
         return key
 
+    # -- enums and constants
+    def register_enum(self, en, ctx):
+        if en.name in self.enum_variants:
+            return en.name
+        key = en.name
+        self.enum_variants[key] = {}      # (self-references resolve to the key while the fields are converted)
+        if self.used_names.get(key, en) is not en:
+            raise R2LError('the Lean name `%s` of enum %s is already taken' % (key, en.name), en.file, en.line)
+        self.used_names[key] = en
+        variants = {}
+        lines = []
+        for vname, kind, fields in en.variants:
+            fts = [(fn_, ctx.conv(t)) for fn_, t in fields]
+            variants[vname] = (kind, fts)
+            args = []
+            for k, (fn_, t) in enumerate(fts):
+                lt = lean_type(t, self.struct_fields)
+                if lt is None:
+                    raise R2LError('unresolved field type in enum %s' % en.name, en.file, en.line)
+                args.append('(%s : %s)' % (lean_ident(fn_) if fn_ else 'a%d' % k, lt))
+            lines.append('  | %s%s' % (lean_ident(vname), (' ' + ' '.join(args)) if args else ''))
+        self.enum_variants[key] = variants
+        derive = 'BEq, Repr, Inhabited' if 'PartialEq' in en.derives else 'Repr, Inhabited'
+        text = '/-- `enum %s` — %s:%d (`Box` erased, `Vec` = `Array`, `String` = `String`) -/\ninductive %s where\n%s\nderiving %s' % (
+            en.name, en.file, en.line, key, '\n'.join(lines), derive)
+        self.output.append((key, text, None))
+        self.stats.append(('enum ' + en.name, key, 'inductive', text.count('\n') + 1, en.file, en.line))
+        return key
+
+    def const_sig(self, c, ctx):
+        """a crate-level `const`: a Lean definition without parameters"""
+        if c.name in self.consts_done:
+            return self.consts_done[c.name]
+        name = lean_ident(c.name)
+        if self.used_names.get(name, c) is not c:
+            raise R2LError('the Lean name `%s` of const %s is already taken' % (name, c.name), c.file, c.line)
+        self.used_names[name] = c
+        ty = ctx.conv(c.ty)
+        (t, ety), lines, eff = ctx.capture(lambda: ctx.ex(c.expr, want=ty))
+        if lines or eff:
+            raise R2LError('const initialiser with effects', c.file, c.line)
+        unify(ty, ety)
+        lt = lean_type(ty, self.struct_fields)
+        text = '/-- `const %s` — %s:%d -/\ndef %s : %s :=\n  %s' % (c.name, c.file, c.line, name, lt, t)
+        self.output.append((name, text, None))
+        self.stats.append(('const ' + c.name, name, 'const', 3, c.file, c.line))
+        self.consts_done[c.name] = (name, ty)
+        return name, ty
+
     # -- names
     def lean_name(self, item):
         if item.outer is not None:
@@ -276,6 +371,8 @@ class Translator:
             base = item.name
         base = lean_ident(base)
         prev = self.used_names.get(base)
+        if base in ('and', 'or', 'xor', 'not', 'iff', 'imp', 'cond', 'id', 'max', 'min', 'compare', 'toString', 'ite', 'dite', 'bind'):
+            prev = 'a name of Lean core'      # never define these inside the generated namespace
         if prev is None or prev is item:
             self.used_names[base] = item
             return base
@@ -307,21 +404,54 @@ class Translator:
 
     def sig_of(self, item, caller, line=None):
         if item in self.sigs:
+            gid = self.group_of.get(item)
+            if gid is not None and self.group_root.get(gid) in self.inprog:
+                # a finished member of a `mutual` group whose root is still being translated: everything on the stack
+                # from the root upwards reaches the group and is reachable from it, so it belongs to the group too
+                k = self.stack.index(self.group_root[gid])
+                for m in self.stack[k:]:
+                    if self.group_of.get(m) is not gid:
+                        if not self.inprog[m].monadic:
+                            raise AbortPure(m)
+                        self.group_of[m] = gid
+                    self.inprog[m].recursive = True
             return self.sigs[item]
         if item in self.inprog:
+            sig = self.inprog[item]
+            if not sig.monadic:
+                # the function is being tried as a PURE definition and is reached again (recursion): give that attempt up
+                raise AbortPure(item)
             if caller is not None and caller.item is item:
-                if caller.pure:
-                    raise NotPure()
-                sig = self.inprog[item]
                 sig.recursive = True
                 return sig
-            raise R2LError('mutual recursion through %s is not supported' % item.qual(), item.file, line)
+            # mutual recursion: everything on the translation stack from `item` upwards is one `mutual` group
+            k = self.stack.index(item)
+            members = self.stack[k:]
+            gid = None
+            for m in members:
+                if m in self.group_of:
+                    gid = self.group_of[m] if gid is None else gid
+            if gid is None:
+                gid = item
+            for m in members:
+                old = self.group_of.get(m)
+                if old is not None and old is not gid:
+                    for x, g in list(self.group_of.items()):
+                        if g is old:
+                            self.group_of[x] = gid
+                self.group_of[m] = gid
+                self.inprog[m].recursive = True
+            # the root of a group is its member lowest on the stack
+            roots = [m for m in self.stack if self.group_of.get(m) is gid]
+            self.group_root[gid] = roots[0]
+            return sig
         return self.translate(item)
 
     def translate(self, item):
         name = self.lean_name(item)
         sig = None
         text = None
+        ctx = None
         for pure in (True, False):
             ctx = FnTr(self, item, pure)
             sig = ctx.header(name)
@@ -330,6 +460,8 @@ class Translator:
             if not pure:
                 sig.fuel = True      # provisional (needed for recursive calls); fixed below
             self.inprog[item] = sig
+            self.stack.append(item)
+            n_out, n_stats = len(self.output), len(self.stats)
             try:
                 if pure and (ctx.ast.self_kind == 'mutval'):
                     raise NotPure()
@@ -338,7 +470,14 @@ class Translator:
                 if not pure:
                     raise R2LError('internal: NotPure in monadic mode', item.file, item.line, item.qual())
                 continue
+            except AbortPure as ab:
+                if ab.item is item and pure:
+                    # callees finished meanwhile stay valid unless they were waiting in a group with this attempt
+                    self.drop_pending_groups()
+                    continue
+                raise
             finally:
+                self.stack.pop()
                 del self.inprog[item]
             if pure and ctx.final is None:
                 # a pure function must end in a value
@@ -347,16 +486,43 @@ class Translator:
             text = self.render(ctx, sig, lines)
             break
         self.sigs[item] = sig
-        self.output.append((sig.lean, text, item))
-        self.stats.append((item.qual(), sig.lean, 'pure' if not sig.monadic else ('monadic+fuel' if sig.fuel else 'monadic'),
-                           text.count('\n') + 1, item.file, item.line))
+        row = (item.qual(), sig.lean, 'pure' if not sig.monadic else ('monadic+fuel' if sig.fuel else 'monadic'),
+               text.count('\n') + 1, item.file, item.line)
+        gid = self.group_of.get(item)
+        if gid is None:
+            self.output.append((sig.lean, text, item))
+            self.stats.append(row)
+        else:
+            self.pending.setdefault(gid, []).append((sig.lean, text, item, row))
+            if self.group_root[gid] is item:
+                parts = self.pending.pop(gid)
+                body = 'mutual\n' + '\n\n'.join(p[1] for p in parts) + '\nend'
+                self.output.append((parts[-1][0], body, item))
+                self.stats.append((' + '.join(p[3][0] for p in parts), ' '.join(p[0] for p in parts), 'mutual, monadic+fuel',
+                                   body.count('\n') + 1, item.file, item.line))
         return sig
+
+    def drop_pending_groups(self):
+        """a pure attempt was abandoned: members of unfinished mutual groups were translated against the abandoned
+        attempt and are translated again"""
+        for gid, parts in list(self.pending.items()):
+            for lean, text, it, row in parts:
+                self.sigs.pop(it, None)
+                self.group_of.pop(it, None)
+            del self.pending[gid]
+        for it in list(self.group_of):
+            if it not in self.inprog:
+                self.group_of.pop(it, None)
 
     def render(self, ctx, sig, lines):
         sf = self.struct_fields
         params = []
         for tp in getattr(sig, 'tparams', []):
-            params.append('{%s : Type}' % tp)
+            if '] [' in tp:
+                nm, cls = tp.split('] [')
+                params.append('{%s : Type} [%s]' % (nm, cls))
+            else:
+                params.append('{%s : Type}' % tp)
         if sig.fuel:
             params.append('(fuel : Nat)')
         for (ln, t, mr) in sig.params:
